@@ -13,9 +13,12 @@ from props import c02_oracle, c02_run
 
 ID = 'C02'
 PROPERTY_FILE = 'C02/Property.v'
+PROPERTY_FILES = ['C02/Property.v', 'C02/PropertyReentrant.v']
 LEVEL = 'other'
 ALLOWED_AXIOMS = ()
 TRUSTED_BASE = [
+    'C02/Reentrant.v: the same transitions written statement by statement with application callbacks that may call '
+    'close_link re-entrantly; hand-written, tied on the runs with in-callback closes',
     'C02/Model.v: hand-written lifecycle state machine of Crazyflie/SyncCrazyflie (open_link, first packet, setup '
     'stages, _link_error_cb fan-out, close_link) at the granularity "one library transition function runs atomically"',
     'DetSched (harness/detsched.py): real threads, one at a time, hand-over only at blocking operations, virtual time; '
@@ -27,7 +30,9 @@ ASSUMPTIONS = ['a thread runs until its next blocking operation (lock, event, qu
                'script and 5 s of virtual settling time; virtual-time horizon 200 s']
 PROVED = ('over the lifecycle model, for every event list: per-attempt callback grammar, link-failure / close fan-out '
           'exactness, no setup callback after the first disconnected of an attempt, re-openable state after disconnect; '
-          'SyncCrazyflie open/close always return or raise in the model')
+          'SyncCrazyflie open/close always return or raise in the model; re-entrant model (C02/Reentrant.v): the same grammar '
+          'for every policy of calling close_link from inside callbacks, at any nesting depth (code after fix F02j), and it is '
+          'the atomic model when the application never re-enters')
 NOT_PROVED = ('absence of deadlock for arbitrary thread interleavings is explored (DetSched sampling), not proved; '
               'interleavings where two library transition functions overlap (known finding F02c) are outside the atomic model')
 
@@ -84,6 +89,8 @@ def _cases(ctx, deep=False):
             for mems in ((), (1,)):
                 cases.append({'cfg': {'mems': list(mems)}, 'seed': rng.randrange(1 << 30), 'cb_actions': [[cbn, 'close']],
                               'script': [o, ['sleep', 1.0], c_, ['reconnect']]})
+        cases.append({'cfg': {}, 'seed': rng.randrange(1 << 30), 'cb_actions': [['connection_requested', 'close']],
+                      'script': [o, ['sleep', 1.0], c_, ['reconnect']]})      # known finding F02l
         for cbn in ('disconnected', 'connection_lost'):
             for k in (5, 30, 52):
                 cases.append({'cfg': {'fault_at': k}, 'seed': rng.randrange(1 << 30), 'cb_actions': [[cbn, 'close']],
@@ -96,6 +103,29 @@ def _cases(ctx, deep=False):
         # re-entrant open_link: not generated)
         cases.append({'cfg': {'fault_at': 0, 'fault_mode': 'connect_sync'}, 'seed': rng.randrange(1 << 30),
                       'cb_actions': [['connection_failed', 'close']], 'script': [o, ['sleep', 2.0], c_, ['reconnect']]})
+    # retry timers against user threads and a driver whose send_packet blocks: an unanswered request (timer every
+    # 0.2 s) is issued again by the user while another sender holds the send lock across the timer's deadline
+    for d1 in (0.05, 0.15, 0.19):
+        for slow in (0.04, 0.1, 0.3):
+            for gap in (0.12, 0.18, 0.21):
+                for s_ in range(seeds):
+                    cases.append({'cfg': {'needs_resending': True, 'slow_send': [3, slow]}, 'seed': rng.randrange(1 << 30),
+                                  'script': [['sync_open'], ['sleep', 3.0], ['request', 7], ['bg_slow_send', d1],
+                                             ['sleep', gap], ['request', 7], ['sleep', 1.0], ['sync_close'], ['reconnect']]})
+    for i in range(ctx.scale(40, 400)):
+        script = [['sync_open'], ['sleep', rng.choice([0.05, 3.0])]]
+        for k in range(rng.randrange(2, 6)):
+            x = rng.random()
+            if x < 0.45:
+                script.append(['request', rng.choice([7, 7, 8]), rng.choice([0.2, 0.1])])
+            elif x < 0.8:
+                script.append(['bg_slow_send', rng.choice([0.0, 0.05, 0.1, 0.15, 0.19, 0.3])])
+            script.append(['sleep', rng.choice([0.02, 0.1, 0.12, 0.18, 0.2, 0.21, 0.4])])
+        script += [rng.choice([['sync_close'], ['close']]), ['reconnect']]
+        cfg = {'needs_resending': True, 'slow_send': [3, rng.choice([0.04, 0.1, 0.3, 1.0])]}
+        if rng.random() < 0.3:
+            cfg.update(fault_at=rng.randrange(50, 70), fault_mode=rng.choice(['driver', 'sender']))
+        cases.append({'cfg': cfg, 'seed': rng.randrange(1 << 30), 'script': script})
     # link error during connect(): reported synchronously, by the driver's thread before connect() returns, or by
     # the driver thread as soon as it is scheduled
     for s in range(seeds * 2):
@@ -176,7 +206,7 @@ def _model_events(case, r):
     an open at its entry, a close_link / link-error handler at the first callback it delivers (a close_link that
     has to wait for the send lock takes effect after the transition that holds it), the setup events at the
     callback they enable.  A transition that was entered but delivered nothing is reported as '?'. """
-    log = [e for e in r['log'] if e[0] != 'rx']
+    log = [e for e in r['log'] if e[0] in ('cb', 'ev')]
     own = {'err': ('disconnected', 'connection_failed', 'disconnected_link_error'), 'close': ('disconnected',)}
     evs = []
     pending = {}
@@ -184,7 +214,7 @@ def _model_events(case, r):
         if e[0] == 'ev':
             if e[1] in own:
                 pending.setdefault(e[2], []).append(e[1])
-            elif e[1].startswith('mem_write'):
+            elif e[1].startswith('mem_write') or e[1].startswith('slow_send'):
                 pass                  # not a lifecycle event
             else:
                 evs.append(e[1])
@@ -203,11 +233,37 @@ def _model_events(case, r):
     return evs
 
 
+def _reentrant_events(case, r):
+    """For runs in which the application closed the link from inside callbacks: (policy, events) for the re-entrant
+    model (C02/Reentrant.v).  policy = global indices of the callbacks inside which close_link was called; the nested
+    close_link calls are not events (they are the application's policy), everything else as in _model_events."""
+    pol = []
+    ncb = 0
+    depth = {}
+    flat = []
+    for e in r['log']:
+        if e[0] == 'rx':
+            continue
+        if e[0] == 'act':
+            pol.append(ncb - 1)
+            depth[e[2]] = depth.get(e[2], 0) + 1
+            continue
+        if e[0] == 'act_end':
+            depth[e[2]] -= 1
+            continue
+        if e[0] == 'cb':
+            ncb += 1
+        if depth.get(e[2], 0) > 0:
+            continue          # the nested close_link and the disconnected callbacks it delivers
+        flat.append(e)
+    return pol, _model_events(case, {'log': flat})
+
+
 EV_COQ = {'open': 'EOpenBegin', 'open_end_ok': 'EOpenEnd true', 'open_end_fail': 'EOpenEnd false', 'pkt': 'EPacket', 'tocs': 'ETocs', 'params': 'EParams',
           'err': 'ELinkErr', 'close': 'EClose'}
 CB_NUM = {'connection_requested': 0, 'connection_failed': 1, 'link_established': 2, 'connected': 3,
           'fully_connected': 4, 'disconnected': 5, 'connection_lost': 6, 'disconnected_link_error': 7}
-HEADER = 'From CF Require Import C02.Model.\nOpen Scope Z_scope.\n'
+HEADER = 'From CF Require Import C02.Model C02.Reentrant.\nOpen Scope Z_scope.\n'
 
 
 def tie(ctx):
@@ -219,11 +275,12 @@ def tie(ctx):
     skipped = 0
     overl = 0
     outside = 0
+    nreent = 0
     sigs = set()
     nontriv = 0
     for i, (c, r) in enumerate(runs):
         an = c02_oracle.check(c, r)
-        sig = (json.dumps(c.get('cfg', {}), sort_keys=True), json.dumps(c['script']), tuple(e[1] for e in r['log'] if e[0] != 'rx'))
+        sig = (json.dumps(c.get('cfg', {}), sort_keys=True), json.dumps(c['script']), tuple(e[1] for e in r['log'] if e[0] in ('cb', 'ev')))
         if sig not in sigs:
             sigs.add(sig)
             if any(e[1] in ('err', 'close') for e in r['log'] if e[0] == 'ev') and 'link_established' in sig[2]:
@@ -231,13 +288,22 @@ def tie(ctx):
         if an:
             skipped += 1          # runs on which the property itself fails are handled by the oracle
             continue
-        if c02_oracle.overlapping(r['log']) or c02_oracle.reentrant_split(r['log']):
+        reent = bool(c.get('cb_actions')) and all(a[1] == 'close' for a in c['cb_actions'])
+        if c02_oracle.overlapping(r['log']) or (not reent and c02_oracle.reentrant_split(r['log'])):
             overl += 1            # two transition functions overlapped in time: outside the atomic model (the oracle
             continue              # still judged the run against the property text)
+        if reent:
+            pol, evs = _reentrant_events(c, r)
+            if '?' not in evs:
+                nreent += 1
+                terms.append('rrun_trace true (pol_at [%s]) [%s]' % ('; '.join('%d%%nat' % k for k in pol),
+                                                                    '; '.join(EV_COQ[e] for e in evs)))
+                idx.append(i)
+                continue
         evs = _model_events(c, r)
         if '?' in evs:
             dis.append({'what': 'a close_link / link-error handler was entered but delivered no callback', 'case': c,
-                        'log': [e[1] for e in r['log'] if e[0] != 'rx']})
+                        'log': [e[1] for e in r['log'] if e[0] in ('cb', 'ev')]})
             continue
         ev_terms = [EV_COQ[e] for e in evs]
         terms.append('run_trace [%s]' % '; '.join(ev_terms))
@@ -252,16 +318,17 @@ def tie(ctx):
                 continue          # another transition: event order outside the grammar the atomic model is defined on
             if list(m) != obs:
                 dis.append({'what': 'lifecycle: model and implementation observe different callback sequences',
-                            'case': c, 'model': list(m), 'impl': obs, 'log': [e[1] for e in r['log'] if e[0] != 'rx']})
+                            'case': c, 'model': list(m), 'impl': obs, 'log': [e[1] for e in r['log'] if e[0] in ('cb', 'ev')]})
     return {'evaluations': len(runs), 'distinct_nontrivial': nontriv,
             'rule': 'DetSched runs: link error after every k-th exchanged packet x {driver thread, sending thread} x '
                     '{Crazyflie, SyncCrazyflie} x schedule seeds; user close after every k-th packet; no driver / driver '
                     'raises / silent peer; random 1-3 round histories; every run ends with a reconnect.  Non-trivial: '
                     'distinct (config, script, observed event order) with a link error or close after link_established',
-            'samples': [{'case': runs[0][0], 'log': [e[1] for e in runs[0][1]['log'] if e[0] != 'rx']}] if runs else [],
+            'samples': [{'case': runs[0][0], 'log': [e[1] for e in runs[0][1]['log'] if e[0] in ('cb', 'ev')]}] if runs else [],
             'distribution': {'runs': len(runs), 'distinct_signatures': len(sigs), 'replayed_on_model': len(terms),
                              'left_to_oracle': skipped, 'overlapping_transitions_not_replayed': overl,
-                             'reentrant_outside_model_grammar': outside},
+                             'reentrant_outside_model_grammar': outside,
+                             'replayed_on_reentrant_model': nreent},
             'disagreements': dis}
 
 
@@ -289,7 +356,7 @@ def oracle(ctx, deep=False):
         for a in c02_oracle.check(c, r):
             fails.append({'class': _classify(c, r, a), 'kind': 'schedule',
                           'case': dict(c, choices=r['choices']),
-                          'observed': {'log': [e[1:3] for e in r['log'] if e[0] != 'rx'], 'results': r['results'], 'stuck': r['stuck'],
+                          'observed': {'log': [e[1:3] for e in r['log'] if e[0] in ('cb', 'ev')], 'results': r['results'], 'stuck': r['stuck'],
                                        'dead': r['dead']},
                           'detail': json.dumps(a['detail'])[:600]})
     return {'evaluations': len(runs), 'failures': fails,
@@ -301,4 +368,4 @@ def replay(payload, ctx):
     c = payload['case']
     r = c02_run.run_case(c)
     an = c02_oracle.check(c, r)
-    return {'anomalies': an, 'log': [e[1:3] for e in r['log'] if e[0] != 'rx']} if an else None
+    return {'anomalies': an, 'log': [e[1:3] for e in r['log'] if e[0] in ('cb', 'ev')]} if an else None
